@@ -224,7 +224,7 @@ example : memberWeight (-1) = 1 ∧ memberWeight 0 = 1 / 1000000000 ∧ memberWe
 
 /-- BOSS / cBOSS / TDE `fit` (fix 94648e4) raises exactly when no window size can be searched, so a fitted
 ensemble has searched at least one window size (and retains a member) -/
-theorem window_check_iff_search_nonempty (minW maxW inc : Nat) (hinc : 1 ≤ inc) :
+theorem window_check_iff_search_nonempty (minW maxW inc : Nat) :
     (windowCheck minW maxW = .ok () ↔ windowSizes minW maxW inc ≠ []) ∧
     (windowCheck minW maxW = .error .value ↔ maxW < minW) := by
   constructor
@@ -238,7 +238,7 @@ theorem window_check_iff_search_nonempty (minW maxW inc : Nat) (hinc : 1 ≤ inc
         simp only [List.mem_filter, List.mem_range, Nat.zero_mod, beq_self_eq_true, and_true]; omega
       rw [e] at h0; simp at h0
   · unfold windowCheck
-    by_cases h : minW > maxW <;> simp [h] <;> omega
+    by_cases h : minW > maxW <;> simp [h]
 
 example : windowCheck 10 9 = .error .value ∧ windowCheck 10 10 = .ok () ∧ windowSizes 10 14 2 = [10, 12, 14] := by
   decide +kernel
